@@ -5,7 +5,7 @@ import random as _r
 from pv import common, detsched
 
 RULE = ("3-6 agents sharing one process, each a light stub (name, AgentDef with capacity / symmetric routes / one global "
-        "default route / hosting costs (a third of the deployments with non-integer route and hosting costs), computations() with footprints) with a real Discovery and a real UCSReplication "
+        "default route / hosting costs (a third of the deployments with non-integer route and hosting costs), computations() with footprints, a third of the deployments with hosted computations that are not handed to replication, like repair computations) with a real Discovery and a real UCSReplication "
         "built by build_replication_computation, plus a real Directory; 1-2 computations per agent with different "
         "footprints, random connected neighbour structure; deployment messages are drained, then replicate(k), k in "
         "1..3, is injected per agent at random points of a random per-channel-FIFO schedule; monitors: independent "
@@ -74,15 +74,21 @@ def gen_deployment(rng):
     for _ in range(rng.randint(0, len(names))):
         x, y = rng.sample(names, 2)
         edges.add(frozenset((x, y)))
+    # computations an agent hosts without handing them to its replication computation (ResilientAgent.add_computation
+    # filters the repair computations, named B...): they are never replicated but they do use the agent's capacity
+    extras = []
+    if rng.random() < 0.35:
+        for a in rng.sample(agents, rng.randint(1, 2)):
+            extras.append({"name": "Bx_%s" % a, "agent": a, "footprint": rng.choice([2, 3, 5, 8])})
     adefs = {}
     for a in agents:
         cap_kind = rng.choice(["ample", "ample", "tight", "exact", "tiny"])
-        own = sum(c["footprint"] for c in comps if c["agent"] == a)
+        own = sum(c["footprint"] for c in comps + extras if c["agent"] == a)
         cap = {"ample": own + 100, "tight": own + rng.randint(3, 9), "exact": own + rng.choice([2, 4, 5]), "tiny": own + rng.randint(0, 2)}[cap_kind]
         adefs[a] = {"capacity": cap, "default_hosting_cost": rng.choice([0, 1, 5]) if not frac else rng.choice([0, 0.1, 0.3, 1.7]),
                     "hosting_costs": {c: (rng.choice([0, 1, 3, 10]) if not frac else rng.choice([0, 0.1, 0.6, 0.7, 3.3])) for c in names if rng.random() < 0.3}}
     return {"agents": agents, "default_route": default_route, "routes": [[a, b, r] for (a, b), r in routes.items()],
-            "comps": comps, "edges": [sorted(e) for e in edges], "agent_defs": adefs, "k": rng.randint(1, 3), "fractional_costs": frac}
+            "comps": comps, "edges": [sorted(e) for e in edges], "agent_defs": adefs, "k": rng.randint(1, 3), "fractional_costs": frac, "extras": extras}
 
 
 class World:
@@ -120,7 +126,7 @@ class World:
             adef = AgentDef(a, capacity=d["capacity"], default_route=dep["default_route"], routes=routes,
                             default_hosting_cost=d["default_hosting_cost"], hosting_costs=dict(d["hosting_costs"]))
             ag = StubAgent(a, adef)
-            ag._comps = [StubComp(c["name"], c["footprint"]) for c in dep["comps"] if c["agent"] == a]
+            ag._comps = [StubComp(c["name"], c["footprint"]) for c in dep["comps"] + dep.get("extras", []) if c["agent"] == a]
             disc = Discovery(a, "addr_" + a)
             disc.use_directory("orchestrator", "addr_o")
             rep = ucs.build_replication_computation(ag, disc)
@@ -151,7 +157,7 @@ class World:
             k = w.dep["k"]
             agent = w.agents[a]
             # from the harness' own deployment description (not through agent.computations(), which is code under test)
-            remaining = w.dep["agent_defs"][a]["capacity"] - sum(c["footprint"] for c in w.dep["comps"] if c["agent"] == a)
+            remaining = w.dep["agent_defs"][a]["capacity"] - sum(c["footprint"] for c in w.dep["comps"] + w.dep.get("extras", []) if c["agent"] == a)
             held = dict(rep.hosted_replicas)
             owners = sorted({o for o, f in held.values()})
             worst = 0
@@ -296,6 +302,7 @@ def worker(job):
             R.count("accepts_while_holding_several", w.stats["accepts_nontrivial"])
             R.count("agents_reported_done", len(w.done))
             R.bump("k", str(dep["k"]))
+            R.count("runs_with_hosted_computations_outside_replication", 1 if dep.get("extras") else 0)
             R.bump("costs", "fractional" if dep.get("fractional_costs") else "integer")
             R.bump("status", status)
             seen = set()
